@@ -15,9 +15,9 @@ _Bool verif_cs(void) { return nondet_bool(); }
 void verif_set_tid(uint32_t t) { verif_os_tid = (int)t; }
 uint32_t verif_get_tid(void) { return (uint32_t)verif_os_tid; }
 #ifdef VERIF_NO_K   /* threads that never block (lock-free code): no kernel contract */
-static void f_K_init(void) {} static uint32_t f_K_timeout_event(uint32_t i) { return 0; } static uint32_t f_K_is_blocked(uint32_t i) { return 0; } static uint32_t f_K_can_timeout(uint32_t i) { return 0; } static void f_K_try_unblock(uint32_t i) {}
+static void f_K_init(void) {} static void f_K_tick(void) {} static uint32_t f_K_timeout_event(uint32_t i) { return 0; } static uint32_t f_K_is_blocked(uint32_t i) { return 0; } static uint32_t f_K_can_timeout(uint32_t i) { return 0; } static void f_K_try_unblock(uint32_t i) {}
 #else
-void f_K_init(void); uint32_t f_K_timeout_event(uint32_t); uint32_t f_K_is_blocked(uint32_t); uint32_t f_K_can_timeout(uint32_t); void f_K_try_unblock(uint32_t);
+void f_K_init(void); void f_K_tick(void); uint32_t f_K_timeout_event(uint32_t); uint32_t f_K_is_blocked(uint32_t); uint32_t f_K_can_timeout(uint32_t); void f_K_try_unblock(uint32_t);
 #endif
 void f_world_init(void); void f_world_final(uint32_t all_done, uint32_t stuck);
 #ifdef VERIF_WORLD_STEP
@@ -60,6 +60,7 @@ void f_sched(void) {
 #endif
         ;
       if (!anyrun) break; }      /* stuck: judged after the loop (no inner loop here) */
+    f_K_tick();
     /* a deadline may expire without the sleeper running at once: it only becomes runnable, others may run first */
     { uint8_t u = nondet_u8();
       if (u == 0 && st[0] != 0) f_K_timeout_event(0); else if (u == 1 && st[1] != 0) f_K_timeout_event(1);
